@@ -662,6 +662,7 @@ type c19Flow struct {
 	cut   map[edgeKey]bool
 	live  map[int]bool // blocks reachable from the body entry under the cut
 	chain map[*ssa.Alloc]bool
+	frame *c19Frame // the frame this flow belongs to (values are followed into helper frames and back); may be nil
 }
 
 func c19NewFlow(fi *FnInfo, body *ssa.BasicBlock, cut map[edgeKey]bool, chain []*ssa.Alloc) *c19Flow {
@@ -682,6 +683,160 @@ func (f *c19Flow) reaches(from, to *ssa.BasicBlock) bool {
 	return f.fi.reachHit([]state{{from.Index, 0, -1}}, f.cut, map[int]bool{to.Index: true})
 }
 
+// c19Frame: one function a referrer of one media type M runs through in one iteration of the listing loop: the
+// listing function itself (root: the paths from the loop body's entry to the append, back edges cut) or a module
+// function whose success is must-pass in its parent frame (`x, err := h(...); if err != nil { return }`), entered
+// from its entry, leaving through its success-capable exits. In every frame the edges whose fact contradicts "the
+// current referrer's media type is M" are cut (facts of a helper are read in the root's frame: its parameters are
+// replaced by the arguments of the call — tr). What every remaining path of a frame passes (labels, in the frame's own
+// spelling) holds for every listed element of media type M: the helper was called in this iteration, it succeeded,
+// and it cannot have taken an edge that contradicts M. Moving a stretch of the per-iteration work (cap, fetch,
+// decode, in any cut) into a helper therefore moves its facts from the root frame into a child frame and changes
+// nothing else; the rules look for each fact in all frames.
+type c19Frame struct {
+	fn     *ssa.Function
+	fi     *FnInfo
+	parent *c19Frame
+	call   *ssa.Call           // in parent.fn; nil for the root
+	tr     func(string) string // a label or rendering of this frame, in the root's frame
+	cut    map[edgeKey]bool
+	labels map[string]string
+	exits  []*ExitSum // helper frames: the success-capable exits reachable under the cut
+	flow   *c19Flow
+	kids   map[*ssa.Call]*c19Frame
+	depth  int
+}
+
+// c19EdgesContradicting: the If edges of fn (all blocks) whose fact, read in the root frame, is one of `facts`.
+func c19EdgesContradicting(fn *ssa.Function, facts map[string]bool, tr func(string) string) map[edgeKey]bool {
+	out := map[edgeKey]bool{}
+	for _, b := range fn.Blocks {
+		iff, ok := blockTerm(b).(*ssa.If)
+		if !ok || len(b.Succs) != 2 {
+			continue
+		}
+		for j := 0; j < 2; j++ {
+			l := condLabel(iff.Cond, j == 0)
+			if facts[tr(l)] {
+				out[edgeKey{b.Index, j}] = true
+			} else if tw, ok := labelTwin(l); ok && facts[tr(tw)] {
+				out[edgeKey{b.Index, j}] = true
+			}
+		}
+	}
+	return out
+}
+
+// grow adds the child frames of fr: calls (inside `within`, all blocks when nil) of module functions with an error
+// result whose success is among fr's own must-pass facts.
+func (fr *c19Frame) grow(w *World, within map[int]bool, contra map[string]bool) {
+	fr.kids = map[*ssa.Call]*c19Frame{}
+	if fr.depth >= 2 {
+		return
+	}
+	for _, ci := range allCalls(fr.fn) {
+		call, ok := ci.(*ssa.Call)
+		if !ok || (within != nil && !within[call.Block().Index]) {
+			continue
+		}
+		h := staticCallee(call)
+		if h == nil || h == fr.fn || h.Blocks == nil || !w.IsProductFn(h) || len(call.Call.Args) != len(h.Params) {
+			continue
+		}
+		rs := h.Signature.Results()
+		if rs.Len() < 2 || !isErrorType(rs.At(rs.Len()-1).Type()) || !labelHas(fr.labels, c19ErrNil(call)) {
+			continue
+		}
+		for p := fr; p != nil; p = p.parent {
+			if p.fn == h {
+				h = nil
+				break
+			}
+		}
+		if h == nil {
+			continue
+		}
+		tr := c19Into(h, call, fr.tr)
+		hi := w.Info(h)
+		cut := c19EdgesContradicting(h, contra, tr)
+		hs := hi.summarizeFrom(Mode{Kind: mErr}, entryState(), cut)
+		if hs == nil || !hs.Complete || len(hs.Exits) == 0 {
+			continue
+		}
+		kid := &c19Frame{fn: h, fi: hi, parent: fr, call: call, tr: tr, cut: cut, labels: hs.Checked, exits: hs.Exits, depth: fr.depth + 1}
+		kid.flow = c19NewFlow(hi, h.Blocks[0], cut, nil)
+		kid.flow.live[0] = true
+		kid.flow.frame = kid
+		kid.grow(w, nil, contra)
+		fr.kids[call] = kid
+	}
+}
+
+// all: the frame and its descendants, parents first.
+func (fr *c19Frame) all() []*c19Frame {
+	out := []*c19Frame{fr}
+	var calls []*ssa.Call
+	for c := range fr.kids {
+		calls = append(calls, c)
+	}
+	sort.Slice(calls, func(i, j int) bool {
+		if calls[i].Block().Index != calls[j].Block().Index {
+			return calls[i].Block().Index < calls[j].Block().Index
+		}
+		return instrIndex(calls[i]) < instrIndex(calls[j])
+	})
+	for _, c := range calls {
+		out = append(out, fr.kids[c].all()...)
+	}
+	return out
+}
+
+// facts: the must-pass facts of all frames, in the root's spelling.
+func (fr *c19Frame) facts() map[string]string {
+	out := map[string]string{}
+	for _, f := range fr.all() {
+		for l, site := range f.labels {
+			if _, dup := out[f.tr(l)]; !dup {
+				out[f.tr(l)] = site
+			}
+		}
+	}
+	return out
+}
+
+// c19Spellings: how the values of the frames on the way from the root down to `to` that are, on every path, exactly
+// field `path` of the record X (the decode target, living in frame `to`) are rendered in the root's frame. For a
+// decode target of the root itself this is the rendering of `X.path`; for one inside a helper it adds what the
+// callers see of it (`h(...)#0.subject`, a result of h, a field of the record h returned).
+func c19Spellings(to *c19Frame, within map[int]bool, X *ssa.Alloc, path string) map[string]bool {
+	out := map[string]bool{}
+	for fr := to; fr != nil; fr = fr.parent {
+		for _, b := range fr.fn.Blocks {
+			if fr.parent == nil && within != nil && !within[b.Index] {
+				continue
+			}
+			if !fr.flow.live[b.Index] {
+				continue
+			}
+			for _, in := range b.Instrs {
+				v, ok := in.(ssa.Value)
+				if !ok {
+					continue
+				}
+				switch in.(type) {
+				case *ssa.UnOp, *ssa.Field, *ssa.Extract:
+				default:
+					continue
+				}
+				if ls, ok := fr.flow.resolve(v, in, 0); ok && c19Only(ls, X, path) {
+					out[fr.tr(desc(v))] = true
+				}
+			}
+		}
+	}
+	return out
+}
+
 // c19Leaves: rendered leaf -> one SSA value rendered that way.
 type c19Leaves map[string]ssa.Value
 
@@ -695,7 +850,7 @@ type c19Leaves map[string]ssa.Value
 // determined by the flow.
 func (f *c19Flow) resolve(v ssa.Value, at ssa.Instruction, depth int) (c19Leaves, bool) {
 	out := c19Leaves{}
-	if depth > 5 {
+	if depth > 12 {
 		return out, false
 	}
 	switch x := v.(type) {
@@ -730,14 +885,278 @@ func (f *c19Flow) resolve(v ssa.Value, at ssa.Instruction, depth int) (c19Leaves
 		if !ok {
 			break
 		}
-		al, ok := fa.X.(*ssa.Alloc)
-		if !ok || !f.chain[al] {
-			break
+		if al, ok := fa.X.(*ssa.Alloc); ok && f.chain[al] {
+			return f.field(al, fieldName(fa.X.Type(), fa.Field), x, depth)
 		}
-		return f.field(al, fieldName(fa.X.Type(), fa.Field), x, depth)
+		// a field of a local record, or of a record a helper handed back
+		if ls, ok, known := f.fieldOfAddr(fa.X, fieldName(fa.X.Type(), fa.Field), x, depth+1); known {
+			return ls, ok
+		}
+	case *ssa.Field:
+		if ls, ok, known := f.fieldOfValue(x.X, fieldName(x.X.Type(), x.Field), x, depth+1); known {
+			return ls, ok
+		}
+	case *ssa.Extract:
+		// one of several results of a helper whose frame is known: what each of its exits (that an element of this
+		// media type can reach) returns in that position
+		if call, isCall := x.Tuple.(*ssa.Call); isCall && f.frame != nil {
+			if kid := f.frame.kids[call]; kid != nil {
+				okAll := true
+				for _, e := range kid.exits {
+					rv := c19ExitResult(e, x.Index)
+					if rv == nil {
+						return out, false
+					}
+					ls, ok := kid.flow.resolve(rv, e.Ret, depth+1)
+					okAll = okAll && ok
+					for l, lv := range ls {
+						out[l] = lv
+					}
+				}
+				return out, okAll && len(kid.exits) > 0
+			}
+		}
+	case *ssa.Parameter:
+		// a helper's parameter is the argument of the call this frame was entered through
+		if f.frame != nil && f.frame.parent != nil && f.frame.call != nil {
+			for i, p := range f.fi.Fn.Params {
+				if p == x && i < len(f.frame.call.Call.Args) {
+					return f.frame.parent.flow.resolve(f.frame.call.Call.Args[i], f.frame.call, depth+1)
+				}
+			}
+		}
 	}
 	out[desc(v)] = v
 	return out, true
+}
+
+// c19ExitResult: the value an exit returns in position k (the phi of a merged return block resolved to the edge the
+// exit came in through, a defer-spilled result to the value spilled).
+func c19ExitResult(e *ExitSum, k int) ssa.Value {
+	if k >= len(e.Ret.Results) {
+		return nil
+	}
+	rv := spilledRet(e.Ret.Results[k])
+	if ph, isPhi := rv.(*ssa.Phi); isPhi && ph.Block() == e.Ret.Block() && e.Pred >= 0 && e.Pred < len(ph.Edges) {
+		rv = ph.Edges[e.Pred]
+	}
+	return rv
+}
+
+// passed: every path of the flow from its entry to `at` executes `st` first.
+func (f *c19Flow) passed(st, at ssa.Instruction) bool {
+	if st.Block() == at.Block() {
+		return instrIndex(st) < instrIndex(at)
+	}
+	if st.Block() == f.body {
+		return true
+	}
+	if at.Block() == f.body {
+		return false
+	}
+	cut := map[edgeKey]bool{}
+	for e := range f.cut {
+		cut[e] = true
+	}
+	cutInto(f.fi, st.Block(), cut)
+	return !f.fi.reachHit([]state{{f.body.Index, 0, -1}}, cut, map[int]bool{at.Block().Index: true})
+}
+
+// c19RecordUses classifies the uses of the address of a local record (a struct variable or composite literal): ok is
+// false when the address goes anywhere but into whole-value loads and stores, field addresses that are themselves
+// only loaded from or stored to, and (retOK) a return of the address itself — then nobody but the instructions
+// found here can have written the record.
+func c19RecordUses(al *ssa.Alloc, retOK bool) (whole []*ssa.Store, ok bool) {
+	for _, r := range *al.Referrers() {
+		switch x := r.(type) {
+		case *ssa.Store:
+			if x.Val == ssa.Value(al) {
+				return nil, false
+			}
+			whole = append(whole, x)
+		case *ssa.UnOp, *ssa.DebugRef:
+		case *ssa.FieldAddr:
+			for _, rr := range *x.Referrers() {
+				switch y := rr.(type) {
+				case *ssa.UnOp, *ssa.DebugRef:
+				case *ssa.Store:
+					if y.Val == ssa.Value(x) {
+						return nil, false
+					}
+				default:
+					return nil, false
+				}
+			}
+		case *ssa.Return:
+			if !retOK {
+				return nil, false
+			}
+		default:
+			return nil, false
+		}
+	}
+	return whole, true
+}
+
+// c19PtrReadOnly: the pointer value is only compared with nil and read through (field loads, whole loads).
+func c19PtrReadOnly(v ssa.Value) bool {
+	if v.Referrers() == nil {
+		return false
+	}
+	for _, r := range *v.Referrers() {
+		switch x := r.(type) {
+		case *ssa.DebugRef:
+		case *ssa.UnOp:
+			if x.Op != token.MUL {
+				return false
+			}
+		case *ssa.BinOp:
+			if !isNilConst(x.X) && !isNilConst(x.Y) {
+				return false
+			}
+		case *ssa.FieldAddr:
+			for _, rr := range *x.Referrers() {
+				switch rr.(type) {
+				case *ssa.UnOp, *ssa.DebugRef:
+				default:
+					return false
+				}
+			}
+		default:
+			return false
+		}
+	}
+	return true
+}
+
+// fieldOfAddr: what field `name` of the record at address addr holds when control is at `at`. known is false when
+// the record is not one this resolver can see through (the caller then treats the load as a leaf of its own).
+//
+//   - a local record (struct variable / composite literal) nobody else can write: the single store to that field, if
+//     it has been executed on every path to `at`; or, without field stores, the field of the single whole value
+//     stored (`info := h(...)`); or the zero value;
+//   - a record a helper handed back by pointer (`*T` result of a helper whose frame is known), only read in this
+//     function: the field of the record each of the helper's exits returns.
+func (f *c19Flow) fieldOfAddr(addr ssa.Value, name string, at ssa.Instruction, depth int) (c19Leaves, bool, bool) {
+	out := c19Leaves{}
+	if depth > 12 {
+		return out, false, true
+	}
+	switch x := addr.(type) {
+	case *ssa.Alloc:
+		if x.Parent() != f.fi.Fn {
+			return nil, false, false
+		}
+		whole, ok := c19RecordUses(x, f.frame != nil && f.frame.parent != nil)
+		if !ok {
+			return nil, false, false
+		}
+		// the writers an element of this media type can run through (a store on an edge-cut branch cannot have executed)
+		var fs, ws []*ssa.Store
+		for _, st := range fieldStores(f.fi.Fn, x, name) {
+			if f.live[st.Block().Index] {
+				fs = append(fs, st)
+			}
+		}
+		for _, st := range whole {
+			if f.live[st.Block().Index] {
+				ws = append(ws, st)
+			}
+		}
+		whole = ws
+		switch {
+		case len(fs) == 0 && len(whole) == 0:
+			out["zero value of "+desc(x)+"."+name] = nil
+			return out, true, true
+		case len(fs) == 0 && len(whole) == 1 && f.passed(whole[0], at):
+			ls, ok, known := f.fieldOfValue(whole[0].Val, name, whole[0], depth+1)
+			if !known {
+				out[desc(whole[0].Val)+"."+name] = nil
+				return out, true, true
+			}
+			return ls, ok, true
+		case len(fs) == 1 && len(whole) == 0 && f.passed(fs[0], at):
+			ls, ok := f.resolve(fs[0].Val, fs[0], depth+1)
+			return ls, ok, true
+		}
+		// several writers, or one that some path to `at` avoids: not determined
+		for _, st := range fs {
+			out[desc(st.Val)] = st.Val
+		}
+		for _, st := range whole {
+			out[desc(st.Val)+"."+name] = nil
+		}
+		return out, false, true
+	case *ssa.Extract:
+		call, isCall := x.Tuple.(*ssa.Call)
+		if !isCall || f.frame == nil || f.frame.kids[call] == nil || !c19PtrReadOnly(x) {
+			return nil, false, false
+		}
+		kid := f.frame.kids[call]
+		okAll := len(kid.exits) > 0
+		for _, e := range kid.exits {
+			rv := c19ExitResult(e, x.Index)
+			if rv == nil {
+				return out, false, true
+			}
+			ls, ok, known := kid.flow.fieldOfAddr(rv, name, e.Ret, depth+1)
+			if !known {
+				out[desc(rv)+"."+name] = nil
+				okAll = false
+				continue
+			}
+			okAll = okAll && ok
+			for l, lv := range ls {
+				out[l] = lv
+			}
+		}
+		return out, okAll, true
+	}
+	return nil, false, false
+}
+
+// fieldOfValue: what field `name` of the record value val holds (val computed at `at`).
+func (f *c19Flow) fieldOfValue(val ssa.Value, name string, at ssa.Instruction, depth int) (c19Leaves, bool, bool) {
+	out := c19Leaves{}
+	if depth > 12 {
+		return out, false, true
+	}
+	switch x := val.(type) {
+	case *ssa.UnOp:
+		if x.Op == token.MUL {
+			return f.fieldOfAddr(x.X, name, x, depth+1)
+		}
+	case *ssa.Const:
+		if x.Value == nil {
+			out["zero value ."+name] = nil
+			return out, true, true
+		}
+	case *ssa.Extract:
+		call, isCall := x.Tuple.(*ssa.Call)
+		if !isCall || f.frame == nil || f.frame.kids[call] == nil {
+			return nil, false, false
+		}
+		kid := f.frame.kids[call]
+		okAll := len(kid.exits) > 0
+		for _, e := range kid.exits {
+			rv := c19ExitResult(e, x.Index)
+			if rv == nil {
+				return out, false, true
+			}
+			ls, ok, known := kid.flow.fieldOfValue(rv, name, e.Ret, depth+1)
+			if !known {
+				out[desc(rv)+"."+name] = nil
+				okAll = false
+				continue
+			}
+			okAll = okAll && ok
+			for l, lv := range ls {
+				out[l] = lv
+			}
+		}
+		return out, okAll, true
+	}
+	return nil, false, false
 }
 
 // field: what field `name` of the element variable al holds when control is at `at`.
@@ -909,12 +1328,13 @@ func c19IsPushInvoke(ci ssa.CallInstruction) bool {
 // c19BlobPushes: the envelope uploads of fn:
 //
 //	oras.PushBytes(ctx, p, mt, blob)                                                       or its definition
-//	d := content.NewDescriptorFromBytes(mt, blob); p.Push(ctx, d, bytes.NewReader(blob))
+//	d := content.NewDescriptorFromBytes(mt, blob); p.Push(ctx, d, bytes.NewReader(blob))   or
+//	h(…, mt, …, blob, …) with h a module function that is such an upload (c19PushEquiv)
 //
 // (oras-go content.go: PushBytes is exactly these two steps). In the second form the descriptor pushed must be the
 // one computed by NewDescriptorFromBytes and the reader must read the very bytes the descriptor was computed
 // from: then the store receives (mt, blob) under the digest of blob, as with PushBytes.
-func c19BlobPushes(fn *ssa.Function) []c19BlobPush {
+func c19BlobPushes(w *World, fn *ssa.Function) []c19BlobPush {
 	var out []c19BlobPush
 	for _, ci := range allCalls(fn) {
 		call, ok := ci.(*ssa.Call)
@@ -924,6 +1344,12 @@ func c19BlobPushes(fn *ssa.Function) []c19BlobPush {
 		if isCallTo(call, "oras.PushBytes") && len(call.Call.Args) == 4 {
 			out = append(out, c19BlobPush{At: call, MT: call.Call.Args[2], Blob: call.Call.Args[3], Desc: res(call, 0), Err: c19ErrNil(call)})
 			continue
+		}
+		if g := staticCallee(call); g != nil && g != fn && w != nil {
+			if mi, bi, ok := c19PushEquiv(w, g); ok && mi < len(call.Call.Args) && bi < len(call.Call.Args) {
+				out = append(out, c19BlobPush{At: call, MT: call.Call.Args[mi], Blob: call.Call.Args[bi], Desc: res(call, 0), Err: c19ErrNil(call)})
+				continue
+			}
 		}
 		if !c19IsPushInvoke(call) {
 			continue
@@ -939,6 +1365,245 @@ func c19BlobPushes(fn *ssa.Function) []c19BlobPush {
 		out = append(out, c19BlobPush{At: call, MT: nd.Call.Args[0], Blob: nd.Call.Args[1], Desc: desc(nd), Err: c19ErrNil(call)})
 	}
 	return out
+}
+
+var c19PushEqMemo = map[*ssa.Function][3]int{}
+var c19PushEqBusy = map[*ssa.Function]bool{}
+
+// c19PushEquiv: h is a module function `(…, mt, …, blob, …) (ocispec.Descriptor, error)` that performs exactly one
+// envelope upload (c19BlobPushes) made from its parameters mt and blob, and every success-capable exit of which
+// returns that upload's descriptor, the upload's own error being nil on the exit. A success of h then stores
+// (mt, blob) and delivers the descriptor PushBytes(mt, blob) delivers: the rules that speak about "the envelope
+// upload" may be anchored on a call of h with the caller's values in those positions. (The upload extracted into
+// a helper: same obligation, decided through the helper's summary.)
+func c19PushEquiv(w *World, h *ssa.Function) (mt, blob int, ok bool) {
+	if h == nil || h.Blocks == nil || !w.IsProductFn(h) {
+		return 0, 0, false
+	}
+	if m, done := c19PushEqMemo[h]; done {
+		return m[0], m[1], m[2] == 1
+	}
+	if c19PushEqBusy[h] {
+		return 0, 0, false
+	}
+	c19PushEqBusy[h] = true
+	defer delete(c19PushEqBusy, h)
+	mt, blob, ok = c19PushEquiv1(w, h)
+	m := [3]int{mt, blob, 0}
+	if ok {
+		m[2] = 1
+	}
+	c19PushEqMemo[h] = m
+	return
+}
+
+func c19PushEquiv1(w *World, h *ssa.Function) (int, int, bool) {
+	rs := h.Signature.Results()
+	if rs.Len() != 2 || namedOf(rs.At(0).Type()) != "ocispec.Descriptor" || !isErrorType(rs.At(1).Type()) {
+		return 0, 0, false
+	}
+	pbs := c19BlobPushes(w, h)
+	if len(pbs) != 1 {
+		return 0, 0, false
+	}
+	pb := pbs[0]
+	mi, bi := c19ParamIdx(h, pb.MT), c19ParamIdx(h, pb.Blob)
+	if mi < 0 || bi < 0 {
+		return 0, 0, false
+	}
+	s := w.Summarize(h, Mode{Kind: mErr})
+	if s == nil || !s.Complete || len(s.Exits) == 0 {
+		return 0, 0, false
+	}
+	for _, e := range s.Exits {
+		r0 := spilledRet(e.Ret.Results[0])
+		if ph, isPhi := r0.(*ssa.Phi); isPhi && ph.Block() == e.Ret.Block() && e.Pred >= 0 && e.Pred < len(ph.Edges) {
+			r0 = ph.Edges[e.Pred]
+		}
+		if desc(r0) != pb.Desc || !labelHas(e.Checked, pb.Err) {
+			return 0, 0, false
+		}
+	}
+	return mi, bi, true
+}
+
+// c19PackSite: an oras.PackManifest call of the entry function or of a module function it calls, directly or
+// through further module functions; Chain is the sequence of calls that leads from the entry function down to Fn
+// (empty when the pack call stands in the entry function), Tr the translation of Fn's frame into the entry
+// function's (identity, or the parameters replaced by the arguments along the chain).
+type c19PackSite struct {
+	Fn    *ssa.Function
+	Pack  *ssa.Call
+	Chain []*ssa.Call
+	Tr    func(string) string
+}
+
+func c19PackSites(w *World, entry *ssa.Function) []c19PackSite {
+	var out []c19PackSite
+	onStack := map[*ssa.Function]bool{}
+	var visit func(fn *ssa.Function, chain []*ssa.Call, tr func(string) string)
+	visit = func(fn *ssa.Function, chain []*ssa.Call, tr func(string) string) {
+		onStack[fn] = true
+		defer delete(onStack, fn)
+		for _, ci := range allCalls(fn) {
+			call, ok := ci.(*ssa.Call)
+			if !ok {
+				continue
+			}
+			if isCallTo(call, "oras.PackManifest") && len(call.Call.Args) == 5 {
+				out = append(out, c19PackSite{Fn: fn, Pack: call, Chain: append([]*ssa.Call(nil), chain...), Tr: tr})
+				continue
+			}
+			g := staticCallee(call)
+			if g == nil || g.Blocks == nil || !w.IsProductFn(g) || onStack[g] || len(chain) >= 3 || len(call.Call.Args) != len(g.Params) {
+				continue
+			}
+			visit(g, append(append([]*ssa.Call(nil), chain...), call), c19Into(g, call, tr))
+		}
+	}
+	visit(entry, nil, c19Same)
+	return out
+}
+
+// c19UpChain follows a value of the packing function up the call chain while it is (a copy of) a parameter of the
+// function it stands in: the value is then the argument bound to that parameter at the call one level up. Returns
+// the value where the climb ends and the level of the function it stands in (0 = the entry function,
+// len(site.Chain) = the packing function).
+func c19UpChain(site c19PackSite, entry *ssa.Function, v ssa.Value) (ssa.Value, int) {
+	lvl := len(site.Chain)
+	fnAt := func(l int) *ssa.Function {
+		if l == 0 {
+			return entry
+		}
+		return staticCallee(site.Chain[l-1])
+	}
+	for v != nil && lvl > 0 {
+		pi := c19ParamIdx(fnAt(lvl), v)
+		if pi < 0 || pi >= len(site.Chain[lvl-1].Call.Args) {
+			break
+		}
+		v = site.Chain[lvl-1].Call.Args[pi]
+		lvl--
+	}
+	if v != nil {
+		v = loadOrigin(v)
+	}
+	return v, lvl
+}
+
+// c19PackedDesc: how the packed manifest's descriptor is rendered in the entry function — result 0 of the pack call
+// itself, or result 0 of the first call of the chain provided every function on the way hands up, on each of its
+// success-capable exits, result 0 of the next call (the pack call at the end).
+func c19PackedDesc(w *World, site c19PackSite) (string, bool, string) {
+	if len(site.Chain) == 0 {
+		return res(site.Pack, 0), true, ""
+	}
+	for i, call := range site.Chain {
+		fn := staticCallee(call)
+		next := site.Pack
+		if i+1 < len(site.Chain) {
+			next = site.Chain[i+1]
+		}
+		s := w.Summarize(fn, Mode{Kind: mErr})
+		if s == nil || len(s.Exits) == 0 {
+			return res(site.Chain[0], 0), false, fnName(fn) + " has no success exit"
+		}
+		for _, e := range s.Exits {
+			r0 := spilledRet(e.Ret.Results[0])
+			if ph, isPhi := r0.(*ssa.Phi); isPhi && ph.Block() == e.Ret.Block() && e.Pred >= 0 && e.Pred < len(ph.Edges) {
+				r0 = ph.Edges[e.Pred]
+			}
+			if desc(r0) != res(next, 0) {
+				return res(site.Chain[0], 0), false, fnName(fn) + " returns " + trunc(desc(r0), 120) + " instead of the packed manifest's descriptor"
+			}
+		}
+	}
+	return res(site.Chain[0], 0), true, ""
+}
+
+// c19SingleElem: v is a slice literal `[]T{e}` (the whole of a local array of length one, written once): returns e.
+func c19SingleElem(v ssa.Value) ssa.Value {
+	sl, ok := v.(*ssa.Slice)
+	if !ok || sl.Low != nil || sl.High != nil || sl.Max != nil {
+		return nil
+	}
+	al, ok := sl.X.(*ssa.Alloc)
+	if !ok {
+		return nil
+	}
+	els := orderedLitElems(al)
+	if len(els) != 1 {
+		return nil
+	}
+	n := 0
+	for _, r := range *al.Referrers() {
+		switch x := r.(type) {
+		case *ssa.IndexAddr:
+			for _, rr := range *x.Referrers() {
+				if _, isStore := rr.(*ssa.Store); isStore {
+					n++
+				} else {
+					return nil
+				}
+			}
+		case *ssa.Slice:
+			if x != sl {
+				return nil
+			}
+		default:
+			return nil
+		}
+	}
+	if n != 1 {
+		return nil
+	}
+	return els[0]
+}
+
+// ---------- the store a blob is read from (b) ------------------------------------------------------------------
+
+// c19SourceLeaves: the values a store-selecting expression can evaluate to, rendered in the frame tr translates
+// into: through interface conversions, phis (a local assigned on alternative branches) and the results of module
+// functions (every return of an accessor such as `func (c *client) blobs() content.Storage`, its parameters
+// replaced by the arguments). Where the selection is written — inline before the fetch or in an accessor — does
+// not change which store is read.
+func c19SourceLeaves(w *World, v ssa.Value, tr func(string) string, depth int, out map[string]bool) bool {
+	if depth > 4 {
+		return false
+	}
+	v = unwrap(v)
+	switch x := v.(type) {
+	case *ssa.Phi:
+		for _, e := range x.Edges {
+			if e == v {
+				continue
+			}
+			if !c19SourceLeaves(w, e, tr, depth+1, out) {
+				return false
+			}
+		}
+		return true
+	case *ssa.Call:
+		h := staticCallee(x)
+		if h == nil || h.Blocks == nil || !w.IsProductFn(h) || len(x.Call.Args) != len(h.Params) || h.Signature.Results().Len() != 1 {
+			break
+		}
+		tr2 := c19Into(h, x, tr)
+		n := 0
+		for _, b := range h.Blocks {
+			r, ok := blockTerm(b).(*ssa.Return)
+			if !ok || len(r.Results) != 1 {
+				continue
+			}
+			n++
+			if !c19SourceLeaves(w, spilledRet(r.Results[0]), tr2, depth+1, out) {
+				return false
+			}
+		}
+		return n > 0
+	}
+	out[tr(desc(v))] = true
+	return true
 }
 
 // c19GlobalWritten: the package-level variable is stored to (as a whole, or one of its fields / elements), or its
